@@ -82,11 +82,49 @@ impl Stats {
         n
     }
     pub fn sample(&mut self, j: J) {
-        if self.samples.len() < 3 {
+        if self.samples.len() < 6 && !self.has_sample_like(&j) {
             self.samples.push(j);
         }
     }
+    /// samples are kept diverse: one per (op, kind/mode)
+    fn has_sample_like(&self, j: &J) -> bool {
+        let sig = |j: &J| {
+            format!(
+                "{}|{}|{}",
+                j.str_of("op").unwrap_or(""),
+                j.str_of("kind").unwrap_or(""),
+                j.str_of("mode").unwrap_or("")
+            )
+        };
+        let s = sig(j);
+        self.samples.iter().any(|x| sig(x) == s)
+    }
+    /// In-process merge (worker side): set members stay in hash sets so the
+    /// side file written at the end contains them.
     pub fn merge(&mut self, other: Stats) {
+        for (k, v) in other.counters {
+            *self.counters.entry(k).or_insert(0) += v;
+        }
+        for (k, s) in other.sets {
+            for d in s {
+                self.mark(&k, d);
+            }
+        }
+        for (k, s) in other.merged {
+            for d in s {
+                self.mark(&k, d);
+            }
+        }
+        for s in other.samples {
+            self.sample(s);
+        }
+        self.sim_time_us += other.sim_time_us;
+        self.overflow += other.overflow;
+    }
+
+    /// Parent-side merge of a worker's statistics: set members are collected
+    /// in vectors (sorted and de-duplicated by `finalize`).
+    pub fn absorb(&mut self, other: Stats) {
         for (k, v) in other.counters {
             *self.counters.entry(k).or_insert(0) += v;
         }
@@ -96,13 +134,11 @@ impl Stats {
         for (k, s) in other.merged {
             self.merged.entry(k).or_default().extend(s);
         }
-        self.overflow += other.overflow;
         for s in other.samples {
-            if self.samples.len() < 3 {
-                self.samples.push(s);
-            }
+            self.sample(s);
         }
         self.sim_time_us += other.sim_time_us;
+        self.overflow += other.overflow;
     }
 
     /// Serialises counters and samples as JSON and sets as a binary side file.
